@@ -151,7 +151,13 @@ class Queue(Entity):
         next_item = self.policy.pop()
         if next_item is None:
             logger.debug("[%s] Poll received but queue is empty", self.name)
-            return []
+            # Answer every poll: the driver allows one outstanding poll at a time
+            # and must learn that this one came back empty-handed.
+            return [
+                QueueDeliverEvent(
+                    time=self.now, target=event.requestor, payload=None, queue_entity=self
+                )
+            ]
 
         logger.debug(
             "[%s] Delivering event to driver: type=%s depth=%d",
